@@ -3,6 +3,18 @@
 import json, os, re
 HERE = os.path.dirname(os.path.dirname(os.path.abspath(__file__)))
 rows = []
+final = {}
+rp = os.path.join(HERE, 'seeded', 'RESULTS.txt')
+if os.path.exists(rp):
+    cur = None
+    for line in open(rp):
+        mm = re.match(r'seeded=seeded/(C\d\d-\w) ', line)
+        if mm:
+            cur = mm.group(1)
+            final[cur] = []
+        mm = re.match(r'\s+check (C\d+) exit=(\d)\s*(?:failure kind=(\S+))?', line)
+        if mm and cur:
+            final[cur].append('%s exit=%s%s' % (mm.group(1), mm.group(2), (' `%s`' % mm.group(3)) if mm.group(3) else ''))
 for d in sorted(os.listdir(os.path.join(HERE, 'seeded'))):
     p = os.path.join(HERE, 'seeded', d, 'meta.json')
     if not os.path.exists(p):
@@ -13,14 +25,14 @@ for d in sorted(os.listdir(os.path.join(HERE, 'seeded'))):
         mm = re.match(r'check (C\d+) exit=(\d)(?: :: (\S+))?', r)
         if mm:
             caught.append('%s exit=%s%s' % (mm.group(1), mm.group(2), (' `%s`' % mm.group(3)) if mm.group(3) else ''))
-    rows.append('| %s | %s | %s | %s | %s |' % (
+    rows.append('| %s | %s | %s | %s | %s | %s |' % (
         d, (m.get('summary') or '').replace('|', '/').replace('\n', ' ')[:220],
         (m.get('needs_to_manifest') or '').replace('|', '/').replace('\n', ' ')[:200],
-        '<br>'.join(caught), m.get('first_run', '')))
+        '<br>'.join(caught), m.get('first_run', ''), '<br>'.join(final.get(d, []))))
 with open(os.path.join(HERE, 'seeded', 'README.md'), 'w') as fh:
     fh.write('# Seeded breaking changes\n\nEach directory holds `patch.diff` (applies to /repo HEAD with `git apply`), `demo.py` '
              '(exits 1 with the change, 0 without) and `meta.json`. All were written by fresh sub-agents that saw only the '
              'property text; all keep the 150 existing tests green. Run one with `tools/seeded.sh seeded/<name> [checks]`.\n\n'
-             '| name | change | needs to manifest | checks run (quick tier) | first run |\n|---|---|---|---|---|\n')
+             'The last column is the result of the final framework (`tools/seeded_matrix.sh`, raw output in `RESULTS.txt`): exit=1 means the check of that property reported the change.\n\n| name | change | needs to manifest | checks run when the change was received (quick tier) | first run | final framework |\n|---|---|---|---|---|---|\n')
     fh.write('\n'.join(rows) + '\n')
 print(len(rows), 'rows')
